@@ -295,7 +295,8 @@ void c13_case(Tape& t, Ctx& ctx) {
   // reductions over coordinates
   VCHECK(ctx, fabsl((ld)ED - sumE) <= 1e-9L * sumE + 1e-280L, "energy-sum", who << ": energy " << g17(ED) << " is not the sum over coordinates " << lg(sumE));
   for (int i = 0; i < N; ++i) {
-    VCHECK(ctx, fabsl((tmD(i) - (ld)gT(i)) - sum_times(i)) <= TAU_ADJ * D * sum_t_abs + tau_zero(S) * natT + 1e-280L, "times-gradient-sum",
+    // the library returns incoming + propagated in double: subtracting the incoming gradient again leaves its rounding, eps*|incoming|
+    VCHECK(ctx, fabsl((tmD(i) - (ld)gT(i)) - sum_times(i)) <= TAU_ADJ * D * sum_t_abs + tau_zero(S) * natT + 2 * (ld)DBL_EPSILON * fabsl((ld)gT(i)) + 1e-280L, "times-gradient-sum",
            who << ": propagated duration gradient " << i << " minus the incoming one is " << lg(tmD(i) - (ld)gT(i)) << " but the sum over the one-dimensional splines is " << lg(sum_times(i)));
     VCHECK(ctx, fabsl(etmD(i) - esum_times(i)) <= TAU_ADJ * D * esum_t_abs + tau_zero(S) * enatT + 1e-280L, "times-gradient-sum",
            who << ": energy duration gradient " << i << " is " << lg(etmD(i)) << " but the sum over the one-dimensional splines is " << lg(esum_times(i)));
